@@ -357,9 +357,11 @@ def random_case(rng, maxlen=40):
                 counts[s - 1] = 0
         else:
             n = rng.randint(1, counts[s - 1]) if ansi else rng.randint(1, 3)
+            if ansi and rng.random() < 0.25:  # more than the section holds (up to twice as many and beyond): a full clear
+                n = counts[s - 1] + rng.randint(1, counts[s - 1] + 2)
             op = {"op": "clearn", "s": s, "n": n}
             if ansi and not g["quiet"]:
-                counts[s - 1] -= n
+                counts[s - 1] = max(0, counts[s - 1] - n)
         if "lines" in op and rng.random() < 0.2:
             op["markup"] = [_markup(rng, x) for x in op["lines"]]
         case["ops"].append(op)
@@ -408,7 +410,7 @@ def run(ctx):
         "deferred wrap at the last column (VT100/xterm)",
         "every character is one cell wide (no tabs, no East-Asian wide characters); the terminal width does not change",
         "only the section outputs write to the stream once the first section exists",
-        "clear(n) is checked for 1 <= n <= number of lines held (clear(0) and n beyond the content are outside the statement)",
+        "clear(n) is checked for every n >= 1; more than the lines held is a full clear (clear(0) is a full clear by Python truthiness and not exercised)",
         "a write the section's own quiet flag / verbosity suppresses changes neither screen nor content; clear and "
         "overwrite are not issued on a section while it is quiet",
     ]
